@@ -1,6 +1,7 @@
 package checks
 
 import (
+	"encoding/binary"
 	"bytes"
 	"errors"
 	"fmt"
@@ -318,10 +319,70 @@ func init() {
 	}
 }
 
+// A second unnamed composite type, registered with a *named* schema carrying a
+// size: what the registry hands back must be the schema that was registered,
+// attribute for attribute.
+type u32x3Codec struct{}
+
+func (u32x3Codec) Read(r *avro.ReadBuf, p unsafe.Pointer) error {
+	b, err := r.Next(12)
+	if err != nil {
+		return err
+	}
+	copy(unsafe.Slice((*byte)(p), 12), b)
+	return nil
+}
+func (u32x3Codec) Skip(r *avro.ReadBuf) error               { _, err := r.Next(12); return err }
+func (u32x3Codec) New(r *avro.ReadBuf) unsafe.Pointer       { return r.Alloc(u32x3Type) }
+func (u32x3Codec) Omit(p unsafe.Pointer) bool               { return false }
+func (u32x3Codec) Write(w *avro.WriteBuf, p unsafe.Pointer) { w.Write(unsafe.Slice((*byte)(p), 12)) }
+
+var u32x3Type = reflect.TypeOf([3]uint32{})
+
+func init() {
+	schema := ref.Schema{Kind: "fixed", Name: "u32x3", Namespace: "verifh.registered", Size: 12}
+	avro.Register(u32x3Type, func(s avro.Schema, typ reflect.Type, omit bool) (avro.Codec, error) {
+		if s.Type != "fixed" || s.Object == nil || s.Object.Size != 12 {
+			return nil, fmt.Errorf("[3]uint32 needs a fixed schema of size 12, got %+v", s)
+		}
+		return u32x3Codec{}, nil
+	})
+	avro.RegisterSchema(u32x3Type, toLib(schema))
+	spec.Custom["cu32x3"] = &spec.CustomKind{
+		Type: u32x3Type, Schema: schema, Base: "int64",
+		Set: func(dst reflect.Value, v spec.ValueSpec) { dst.Index(0).SetUint(uint64(uint32(v.I))) },
+		Abs: func(v reflect.Value) spec.AbsVal {
+			b := make([]byte, 12)
+			for i := 0; i < 3; i++ {
+				binary.LittleEndian.PutUint32(b[4*i:], uint32(v.Index(i).Uint()))
+			}
+			return spec.AbsVal{K: "bytes", S: b}
+		},
+	}
+}
+
+// onceOnly keeps the first use of a custom leaf and turns later ones into
+// another: a named schema used twice is the open finding KF-C15-1, which has its
+// own check.
+func onceOnly(ts *spec.TypeSpec, kind, other string, seen *bool) {
+	if ts.K == kind {
+		if *seen {
+			ts.K = other
+		}
+		*seen = true
+	}
+	if ts.Elem != nil {
+		onceOnly(ts.Elem, kind, other, seen)
+	}
+	for i := range ts.Fields {
+		onceOnly(&ts.Fields[i].T, kind, other, seen)
+	}
+}
+
 func drawC15(t *rapid.T) c15Case {
 	o := gen.TypeOpts{MaxDepth: 4, MaxFields: 5, SkipFields: true, Wide: true,
 		Leaves: []string{"bool", "int", "int16", "int32", "int64", "float32", "float64", "string", "bytes",
-			"time", "nullInt", "nullBool", "nullFloat", "nullString", "nullTime", "cu16x5"}}
+			"time", "nullInt", "nullBool", "nullFloat", "nullString", "nullTime", "cu16x5", "cu32x3"}}
 	if thorough() {
 		o.MaxDepth = 6
 		o.MaxFields = 6
@@ -338,6 +399,8 @@ func drawC15(t *rapid.T) c15Case {
 		c.Type = cat.Get(rapid.SampledFrom(names).Draw(t, "cat")).Spec
 	} else {
 		c.Type = gen.StructType(t, o, 1)
+		seen := false
+		onceOnly(&c.Type, "cu32x3", "cu16x5", &seen)
 	}
 	c.GoType = c.Type.GoString()
 	c.Flip = gen.Uniform(t, "flip", 50) == 0
